@@ -727,6 +727,12 @@ func (c *Client) Do(ctx context.Context, q Query) (err error) {
 			if rerr != nil && !errors.Is(rerr, context.Canceled) && !errors.Is(rerr, context.DeadlineExceeded) {
 				sendFailed.Store(true)
 			}
+			if rerr != nil && recvFailed.Load() {
+				// The receive loop has failed already and its error is on its way
+				// to the error group; this one is most likely a consequence (the
+				// connection was given up under the sender): do not compete.
+				rerr = nil
+			}
 		}()
 		// Sending data.
 		if err := c.sendQuery(ctx, q); err != nil {
